@@ -67,26 +67,29 @@ def simpleEscape (c : Nat) : Option Nat :=
   else if c == 98 then some 8 else if c == 102 then some 12 else if c == 110 then some 10
   else if c == 114 then some 13 else if c == 116 then some 9 else none
 
+/-- one lexer step at byte `b` (followed by `rest`); `next` reads the remainder -/
+def unitsStep (next : List Nat → Option (List Nat)) (b : Nat) (rest : List Nat) : Option (List Nat) :=
+  if b == 92 then
+    match rest with
+    | 117 :: h1 :: h2 :: h3 :: h4 :: r =>
+      match hexVal h1, hexVal h2, hexVal h3, hexVal h4 with
+      | some a, some b', some c, some d => (next r).map ((a * 4096 + b' * 256 + c * 16 + d) :: ·)
+      | _, _, _, _ => none
+    | c :: r =>
+      match simpleEscape c with
+      | some u => (next r).map (u :: ·)
+      | none => none
+    | [] => none
+  else if b < 128 then (next rest).map (b :: ·)
+  else match utf8Head (b :: rest) with
+    | some (r, n) => (next (rest.drop (n - 1))).map (utf16 r ++ ·)
+    | none => none
+
 /-- code units of a JSON text; `fuel` bounds the iterations (`units` supplies the length) -/
 def unitsF : Nat → List Nat → Option (List Nat)
   | _, [] => some []
   | 0, _ :: _ => none
-  | fuel + 1, b :: rest =>
-    if b == 92 then
-      match rest with
-      | 117 :: h1 :: h2 :: h3 :: h4 :: r =>
-        match hexVal h1, hexVal h2, hexVal h3, hexVal h4 with
-        | some a, some b', some c, some d => (unitsF fuel r).map ((a * 4096 + b' * 256 + c * 16 + d) :: ·)
-        | _, _, _, _ => none
-      | c :: r =>
-        match simpleEscape c with
-        | some u => (unitsF fuel r).map (u :: ·)
-        | none => none
-      | [] => none
-    else if b < 128 then (unitsF fuel rest).map (b :: ·)
-    else match utf8Head (b :: rest) with
-      | some (r, n) => (unitsF fuel ((b :: rest).drop n)).map (utf16 r ++ ·)
-      | none => none
+  | fuel + 1, b :: rest => unitsStep (unitsF fuel) b rest
 
 def units (l : List Nat) : Option (List Nat) := unitsF l.length l
 
